@@ -123,9 +123,13 @@ def build_race_binary(ck):
         "internal/language/bytecode/zz_verif_yield.go": os.path.join(vf.HARNESS, "C08", "yield.go")},
         "c08.test", replace={"internal/language/bytecode/run.go": inst}, race=True, timeout=2400)
     if ok and cache:
-        for old in os.listdir(vf.BUILD):
-            if old.startswith("c08-race-") and vf.REPO == "/repo":
-                pass      # keep other keys (scratch worktrees); they are small in number
+        olds = sorted((f for f in os.listdir(vf.BUILD) if f.startswith("c08-race-") and f.endswith(".test")),
+                      key=lambda f: os.path.getmtime(os.path.join(vf.BUILD, f)))
+        for old in olds[:-3]:          # keep the three most recent keys (scratch worktrees, /repo)
+            try:
+                os.remove(os.path.join(vf.BUILD, old))
+            except OSError:
+                pass
         shutil.copy(binp, cache + ".tmp")
         os.replace(cache + ".tmp", cache)
         return True, cache
